@@ -4,6 +4,7 @@ package main
 // case and classify the pair of verdicts.
 
 import (
+	"os"
 	"bytes"
 	"encoding/hex"
 	"fmt"
@@ -32,11 +33,13 @@ type stats struct {
 	viols      []viol
 	incon      []string
 	samples    []any
+	famNanos   map[string]int64
+	slowWhat   map[string]string
 }
 
 func newStats() *stats {
 	return &stats{counters: map[string]int64{}, maxes: map[string]int64{}, distinct: map[string]struct{}{},
-		distinctIn: map[string]map[string]struct{}{}}
+		distinctIn: map[string]map[string]struct{}{}, famNanos: map[string]int64{}, slowWhat: map[string]string{}}
 }
 
 func (s *stats) count(k string, n int64) { s.counters[k] += n }
@@ -69,7 +72,13 @@ func (s *stats) merge(o *stats) {
 		s.counters[k] += v
 	}
 	for k, v := range o.maxes {
+		if v > s.maxes[k] {
+			s.slowWhat[k] = o.slowWhat[k]
+		}
 		s.max(k, v)
+	}
+	for k, v := range o.famNanos {
+		s.famNanos[k] += v
 	}
 	for k := range o.distinct {
 		s.distinct[k] = struct{}{}
@@ -86,6 +95,8 @@ func (s *stats) merge(o *stats) {
 
 const slowCeiling = time.Second
 
+var debug = os.Getenv("VERIF_C14_DEBUG") != ""
+
 // guard runs one call into sdns under recover() and the coarse time ceiling.
 // A call slower than the ceiling is repeated on the same input; only three
 // consecutive slow executions count (a loaded machine can stall one).
@@ -101,7 +112,10 @@ func (s *stats) guard(prim string, c *jCase, f func()) (ok bool) {
 		s.violation("panic/"+prim, fmt.Sprintf("%s panicked: %v", prim, p), c)
 		return false
 	}
-	s.max("slowest_call_us/"+prim, d.Microseconds())
+	if key := "slowest_call_us/" + prim; d.Microseconds() > s.maxes[key] {
+		s.maxes[key] = d.Microseconds()
+		s.slowWhat[key] = c.Family + "/" + c.Mut + "/" + c.Class
+	}
 	if d > slowCeiling {
 		s.count("slow_single_calls", 1)
 		slow := 1
@@ -326,10 +340,6 @@ func judgeVerify(st *stats, c *jCase) {
 				fmt.Sprintf("%s accepted an RSA signature that is not valid by big-integer PKCS#1 v1.5 verification over the library's signed data (%s)", p.name, c.Class), c)
 			continue
 		}
-		if !ref.known {
-			st.count("verify_reference_unanswerable", 1)
-			continue
-		}
 		cls := ""
 		if k != nil && sig != nil {
 			cls = strictClass(k, sig, rrs, &ref)
@@ -340,6 +350,11 @@ func judgeVerify(st *stats, c *jCase) {
 			// an input in a class the code documents as refused must be refused.
 			st.violation(fmt.Sprintf("more-permissive/%s/%s/%s", p.name, fam, cls),
 				fmt.Sprintf("%s accepted an input in the documented refusal class %s (mutation %s, input class %s)", p.name, cls, c.Mut, c.Class), c)
+		case !ref.known:
+			st.count("verify_reference_unanswerable", 1)
+			if debug {
+				fmt.Fprintf(os.Stderr, "DEBUG ref-unanswerable: mut=%s class=%s lib=%v basis=%s S=%v\n", c.Mut, c.Class, ref.lib, ref.basis, S)
+			}
 		case S == vAccept && ref.accept:
 			st.count("verify_agree_accept", 1)
 			st.count("verify_agree_accept/"+fam, 1)
@@ -395,6 +410,9 @@ func judgeSignedData(st *stats, c *jCase, sig *dns.RRSIG, rrs []dns.RR) {
 		st.count("signed_data_sdns_refuses_only", 1)
 	case werr != nil:
 		st.count("signed_data_library_refuses_only", 1)
+		if debug {
+			fmt.Fprintf(os.Stderr, "DEBUG lib-refuses-only: %v | sig=%v | rr0=%v | mut=%s\n", werr, sig, rrs[0], c.Mut)
+		}
 	case bytes.Equal(got, want):
 		st.count("signed_data_equal", 1)
 		wild := dns.CountLabel(rrs[0].Header().Name) > int(sig.Labels)
